@@ -9,6 +9,7 @@
 EXTENDS LsmProps
 
 CONSTANTS Keys, Vals,        \* model keys / values (naturals >= 1)
+          WeakKeys,          \* keys used under the single-delete discipline (C13)
           MaxSeq,            \* bound on the seqno counter
           MaxSealed, MaxTables, MaxSnaps, MaxHist,
           DestLevels,        \* levels compactions may target
@@ -30,10 +31,18 @@ WChoices ==
 ValAt(s) == (CHOOSE f \in [0..Cardinality(Vals)-1 -> Vals] :
                 \A i, j \in DOMAIN f : i < j => f[i] < f[j])[s % Cardinality(Vals)]
 
+\* strong keys take inserts and deletes; weak keys follow the single-delete discipline:
+\* insert only when absent-by-weak-delete or never written, remove_weak only directly
+\* after an insert, never overwritten, never strongly deleted
+WriteTypes(k) ==
+    IF k \notin WeakKeys THEN {"V", "T"}
+    ELSE LET r == NewestIn(LiveAt(A, Top), k, Top)
+         IN IF r = None \/ r.t = "W" THEN {"V"} ELSE {"W"}
+
 Write ==
     /\ "write" \in Ops /\ st.seq < MaxSeq
-    /\ \E k \in Keys, t \in {"V", "T"} :
-         LET it == [k |-> k, t |-> t, v |-> IF t = "T" THEN NoVal ELSE ValAt(st.seq)]
+    /\ \E k \in Keys : \E t \in WriteTypes(k) :
+         LET it == [k |-> k, t |-> t, v |-> IF t = "V" THEN ValAt(st.seq) ELSE NoVal]
              e  == [k |-> k, s |-> st.seq, t |-> t, v |-> it.v] IN
          /\ st' = OpWrite(st, {it})
          /\ A' = AWrite(A, {e})
@@ -41,7 +50,7 @@ Write ==
 
 Batch ==
     /\ "batch" \in Ops /\ st.seq < MaxSeq /\ Cardinality(Keys) >= 2
-    /\ \E k1 \in Keys, k2 \in Keys, t1 \in {"V", "T"}, t2 \in {"V", "T"} :
+    /\ \E k1 \in Keys \ WeakKeys, k2 \in Keys \ WeakKeys, t1 \in {"V", "T"}, t2 \in {"V", "T"} :
          /\ k1 < k2
          /\ LET i1 == [k |-> k1, t |-> t1, v |-> IF t1 = "T" THEN NoVal ELSE Min(Vals)]
                 i2 == [k |-> k2, t |-> t2, v |-> IF t2 = "T" THEN NoVal ELSE Max(Vals)]
@@ -63,7 +72,7 @@ Flush ==
     /\ Latest(st).sealed # <<>>
     /\ \E w \in WChoices :
          /\ st' = OpFlush(st, w)
-         /\ A' = AFlush(A)
+         /\ A' = AHazard(AFlush(A), FlushHazard(st, w))
          /\ Log([op |-> "flush", w |-> w])
 
 \* table positions <<level, run, index>> (0-based level, 1-based run/index) for the harness
@@ -82,7 +91,7 @@ Merge ==
          /\ ids # {}
          /\ LegalMerge(st, ids, dest)
          /\ st' = OpMerge(st, ids, dest, split, w)
-         /\ A' = A
+         /\ A' = AHazard(A, MergeHazard(st, ids, w))
          /\ Log([op |-> "compact", kind |-> "merge", tables |-> PosList(lv, ids),
                  dest |-> dest, split |-> split, w |-> w])
 
@@ -101,7 +110,7 @@ Major ==
     /\ "major" \in Ops /\ st.seq < MaxSeq
     /\ \E split \in {"none", "all"}, w \in WChoices :
          /\ st' = OpMerge(st, AllIds(Latest(st).lv), LastLevel, split, w)
-         /\ A' = A
+         /\ A' = AHazard(A, MergeHazard(st, AllIds(Latest(st).lv), w))
          /\ Log([op |-> "major", split |-> split, w |-> w])
 
 Reopen ==
@@ -110,6 +119,43 @@ Reopen ==
     /\ st' = OpReopen(st)
     /\ A' = AReopen(A)
     /\ Log([op |-> "reopen"])
+
+\* bounds offered to drop_range: unbounded / inclusive / exclusive at keys and between keys
+BoundPoints == 1..(2 * Max(Keys) + 1)
+BoundChoices == {<<"U", 0>>} \cup {<<kd, x>> : kd \in {"I", "E"}, x \in BoundPoints}
+
+DropRange ==
+    /\ "droprange" \in Ops /\ st.seq < MaxSeq
+    /\ \E lo \in BoundChoices, hi \in BoundChoices :
+         LET b == [lo |-> lo, hi |-> hi]
+             ks == {k \in Keys : InBounds(k, b)} IN
+         /\ DropRangeIds(st, b) # {} \/ DropRangeNoop(b) \/ (lo[1] = "U" /\ hi[1] = "U")
+            \/ (lo[1] # "U" /\ hi[1] # "U" /\ lo[2] = hi[2])
+         /\ st' = OpDropRange(st, b)
+         /\ A' = IF DropRangeNoop(b) THEN A ELSE ADropRange(A, ks, st.seq)
+         /\ Log([op |-> "droprange", lo |-> lo, hi |-> hi])
+
+Clear ==
+    /\ "clear" \in Ops /\ st.seq < MaxSeq
+    /\ st' = OpClear(st)
+    /\ A' = AClear(A, st.seq)
+    /\ Log([op |-> "clear"])
+
+\* ascending batches over the keys; values / tombstones / weak tombstones
+IngestBatches ==
+    {b \in UNION {[1..n -> [k : Keys, t : {"V", "T"}, v : {NoVal, Max(Vals)}]] : n \in 1..2} :
+        /\ \A j \in 1..Len(b) : (b[j].t = "V") = (b[j].v # NoVal)
+        /\ \A j \in 1..Len(b) : b[j].k \notin WeakKeys
+        /\ \A j \in 1..Len(b) - 1 : b[j].k < b[j+1].k}
+
+Ingest ==
+    /\ "ingest" \in Ops /\ st.seq + 1 < MaxSeq
+    /\ \E b \in IngestBatches :
+         LET s1 == OpIngest(st, b)
+             g  == s1.seq - 1 IN
+         /\ st' = s1
+         /\ A' = AIngest(A, {[k |-> b[j].k, s |-> g, t |-> b[j].t, v |-> b[j].v] : j \in 1..Len(b)})
+         /\ Log([op |-> "ingest", items |-> b])
 
 OpenSnap ==
     /\ "snap" \in Ops
@@ -127,7 +173,7 @@ ReleaseSnap ==
          /\ Log([op |-> "release", S |-> S])
 
 Next == Write \/ Batch \/ Rotate \/ Flush \/ Merge \/ Move \/ Major \/ Reopen
-        \/ OpenSnap \/ ReleaseSnap
+        \/ OpenSnap \/ ReleaseSnap \/ DropRange \/ Clear \/ Ingest
 
 Spec == Init /\ [][Next]_vars
 
